@@ -82,6 +82,14 @@ theorem execList_seqOf (te : C.TyEnv) (F : Nat) (l : List Stmt) (st : Py.St) (r 
           rw [C.exec, C_exec_mono (Nat.le_max_left F f2) (by rw [h1]; intro e; cases e), h1, ok_bind, if_neg hbr,
             C_exec_mono (Nat.le_max_right F f2) (by rw [h2]; exact hr), h2]
 
+theorem execList_seqOf_ub (te : C.TyEnv) (F : Nat) (l : List Stmt) (st : Py.St) (h : UB (execList te F l st)) :
+    ∃ f', UB (C.exec te f' (seqOf l) st) := by
+  rcases h with h | h
+  · obtain ⟨f', hf⟩ := execList_seqOf te F l st _ h (by intro e; cases e)
+    exact ⟨f', .inl hf⟩
+  · obtain ⟨f', hf⟩ := execList_seqOf te F l st _ h (by intro e; cases e)
+    exact ⟨f', .inr hf⟩
+
 /-! ### transfer of the fragment check and of `trNested` to a larger type environment -/
 
 def Ext (all : List String) (te te' : C.TyEnv) : Prop :=
@@ -184,102 +192,43 @@ theorem trNested_ext {all : List String} {te te' : C.TyEnv} {m : Bool} {d : Nat}
 
 /-! ### name-free expressions in C -/
 
-theorem C_eval_nameFree_total (te : C.TyEnv) (s : Store) (e : Expr) (h : e.nameFree = true) :
-    (∃ v, C.eval te s e = .ok v) ∨ C.eval te s e = .error .overflow := by
-  induction e with
-  | int n => left; exact ⟨_, rfl⟩
-  | bool b => left; exact ⟨_, rfl⟩
-  | var x => simp [Expr.nameFree] at h
-  | bin op a b iha ihb =>
-    simp only [Expr.nameFree, Bool.and_eq_true] at h
-    rw [C.eval]
-    rcases iha h.1 with ⟨x, hx⟩ | hx
-    · rw [hx, ok_bind]
-      rcases ihb h.2 with ⟨y, hy⟩ | hy
-      · rw [hy, ok_bind]
-        rcases chk_cases (op.eval x.toInt y.toInt) with hc | hc
-        · left; exact ⟨_, hc⟩
-        · right; exact hc
-      · rw [hy]; right; rfl
-    · rw [hx]; right; rfl
-  | neg a iha =>
-    simp only [Expr.nameFree] at h
-    rw [C.eval]
-    rcases iha h with ⟨x, hx⟩ | hx
-    · rw [hx, ok_bind]
-      rcases chk_cases (-x.toInt) with hc | hc
-      · left; exact ⟨_, hc⟩
-      · right; exact hc
-    · rw [hx]; right; rfl
-  | cmp op a b iha ihb =>
-    simp only [Expr.nameFree, Bool.and_eq_true] at h
-    rw [C.eval]
-    rcases iha h.1 with ⟨x, hx⟩ | hx
-    · rw [hx, ok_bind]
-      rcases ihb h.2 with ⟨y, hy⟩ | hy
-      · rw [hy, ok_bind]; left; exact ⟨_, rfl⟩
-      · rw [hy]; right; rfl
-    · rw [hx]; right; rfl
-  | and a b iha ihb =>
-    simp only [Expr.nameFree, Bool.and_eq_true] at h
-    rw [C.eval]
-    rcases iha h.1 with ⟨x, hx⟩ | hx
-    · rw [hx, ok_bind]
-      split
-      · rcases ihb h.2 with ⟨y, hy⟩ | hy
-        · rw [hy, ok_bind]; left; exact ⟨_, rfl⟩
-        · rw [hy]; right; rfl
-      · left; exact ⟨_, rfl⟩
-    · rw [hx]; right; rfl
-  | or a b iha ihb =>
-    simp only [Expr.nameFree, Bool.and_eq_true] at h
-    rw [C.eval]
-    rcases iha h.1 with ⟨x, hx⟩ | hx
-    · rw [hx, ok_bind]
-      split
-      · left; exact ⟨_, rfl⟩
-      · rcases ihb h.2 with ⟨y, hy⟩ | hy
-        · rw [hy, ok_bind]; left; exact ⟨_, rfl⟩
-        · rw [hy]; right; rfl
-    · rw [hx]; right; rfl
-  | not a iha =>
-    simp only [Expr.nameFree] at h
-    rw [C.eval]
-    rcases iha h with ⟨x, hx⟩ | hx
-    · rw [hx, ok_bind]; left; exact ⟨_, rfl⟩
-    · rw [hx]; right; rfl
-  | ite c a b ihc iha ihb =>
-    simp only [Expr.nameFree, Bool.and_eq_true] at h
-    rw [C.eval]
-    rcases ihc h.1.1 with ⟨x, hx⟩ | hx
-    · rw [hx, ok_bind]
-      split
-      · rcases iha h.1.2 with ⟨y, hy⟩ | hy
-        · rw [hy, ok_bind]; left; exact ⟨_, rfl⟩
-        · rw [hy]; right; rfl
-      · rcases ihb h.2 with ⟨y, hy⟩ | hy
-        · rw [hy, ok_bind]; left; exact ⟨_, rfl⟩
-        · rw [hy]; right; rfl
-    · rw [hx]; right; rfl
-
 theorem C_eval_nameFree_store (te : C.TyEnv) (s s' : Store) (e : Expr) (h : e.nameFree = true) :
     C.eval te s e = C.eval te s' e :=
   C_eval_congr te s s' e (by rw [nameFree_vars e h]; intro x hx; cases hx)
 
 /-! ### static initialisation -/
 
+/-- initialiser of a global: a name-free, well-typed expression on which Python's evaluation succeeds (the literal default of the
+    type, or a constant the transpiler folded with `_eval_const`) -/
+def GoodInit (e : Expr) : Prop := e.nameFree = true ∧ e.wt [] = true ∧ ∃ v, Py.eval [] e = .ok v
+
+theorem goodInit_of_const {te : C.TyEnv} {e : Expr} (hnf : e.nameFree = true) (hwt : e.wt te = true)
+    (hc : (evalConst e).isSome = true) : GoodInit e := by
+  refine ⟨hnf, (wt_nameFree te [] e hnf hwt).1, ?_⟩
+  obtain ⟨v, hv⟩ := Option.isSome_iff_exists.1 hc
+  exact ⟨v, (evalConst_spec hv []).2⟩
+
+/-- such an initialiser evaluates in C (no zero divisor: Python met none), up to tracked undefined behaviour -/
+theorem C_eval_good (te : C.TyEnv) (s : Store) (e : Expr) (h : GoodInit e) :
+    (∃ v, C.eval te s e = .ok v) ∨ UB (C.eval te s e) := by
+  obtain ⟨hnf, hwt, v, hv⟩ := h
+  rw [C_eval_nameFree_store te s [] e hnf]
+  rcases expr_sim te [] [] (Rel_nil _ _) e v (wt_nameFree [] te e hnf hwt).1 hv with h | h
+  · left; exact ⟨_, h⟩
+  · right; exact h
+
 theorem init_total (te : C.TyEnv) (gl : List (String × Ty × Expr)) (s : Store)
-    (hnf : ∀ g ∈ gl, g.2.2.nameFree = true) :
-    (∃ s0, C.initGlobals te gl s = .ok s0) ∨ C.initGlobals te gl s = .error .overflow := by
+    (hnf : ∀ g ∈ gl, GoodInit g.2.2) :
+    (∃ s0, C.initGlobals te gl s = .ok s0) ∨ UB (C.initGlobals te gl s) := by
   induction gl generalizing s with
   | nil => left; exact ⟨s, rfl⟩
   | cons g rest ih =>
     obtain ⟨x, t, e⟩ := g
     rw [C.initGlobals]
-    rcases C_eval_nameFree_total te s e (hnf (x, t, e) (List.mem_cons_self ..)) with ⟨v, hv⟩ | hv
+    rcases C_eval_good te s e (hnf (x, t, e) (List.mem_cons_self ..)) with ⟨v, hv⟩ | hv
     · rw [hv, ok_bind]
       exact ih _ (fun g hg => hnf g (List.mem_cons_of_mem _ hg))
-    · rw [hv]; right; rfl
+    · right; exact ub_bind _ hv
 
 theorem init_spec (te : C.TyEnv) (gl : List (String × Ty × Expr)) (s s0 : Store)
     (hpw : gl.Pairwise (fun a b => a.1 ≠ b.1)) (hnf : ∀ g ∈ gl, g.2.2.nameFree = true)
